@@ -602,7 +602,14 @@ pub async fn run_scripted_server() {
             let bare = client_first.splitn(3, ',').nth(2).unwrap_or("").to_string();
             let cnonce = attr(&bare, 'r').unwrap_or("").to_string();
             if act == ServerAct::OkBeforeChallenge {
-                peer.send_sasl(&sasl_outcome(0, Some(b"v=AAAA".to_vec()))).await;
+                // with a made-up verifier, an empty one, or none at all
+                let data: Option<Vec<u8>> = match choice(5) {
+                    0 => Some(b"v=AAAA".to_vec()),
+                    1 | 2 => Some(b"v=".to_vec()),
+                    3 => Some(Vec::new()),
+                    _ => None,
+                };
+                peer.send_sasl(&sasl_outcome(0, data)).await;
             } else {
                 let salt: Vec<u8> = (0..16).map(|_| choice(256) as u8).collect();
                 let iters = 64u32; // the server chooses; small keeps the run cheap
@@ -981,4 +988,117 @@ pub async fn run_replay_client() {
         return;
     }
     sim::probe("replayed-exchange-refused");
+}
+
+// ---------------------------------------------------------------------------------------
+// (f) a credential store that changes under the exchange: the listener looks the user up when
+// the sasl-init arrives and again when the response arrives; in between the account is removed.
+// Whatever the client then sends - the right proof, a wrong one, junk - it has not completed an
+// exchange with valid credentials.
+
+struct VanishingUser {
+    inner: SingleScramCredential,
+    lookups: std::sync::atomic::AtomicU32,
+    present_for: u32,
+}
+
+impl fe2o3_amqp::auth::scram::ScramCredentialProvider for VanishingUser {
+    fn scram_version(&self) -> &ScramVersion {
+        self.inner.scram_version()
+    }
+    fn get_stored_password<'a>(&'a self, username: &str) -> Option<fe2o3_amqp::auth::scram::StoredPassword<'a>> {
+        let n = self.lookups.fetch_add(1, std::sync::atomic::Ordering::Relaxed);
+        if n >= self.present_for {
+            return None;
+        }
+        self.inner.get_stored_password(username)
+    }
+}
+
+pub async fn run_vanishing_user() {
+    use fe2o3_amqp::auth::scram::ScramCredentialProvider;
+    let mech = pick(&[Mech::Sha1, Mech::Sha256, Mech::Sha512]);
+    let v = match mech {
+        Mech::Sha1 => ScramVersion::Sha1,
+        Mech::Sha256 => ScramVersion::Sha256,
+        _ => ScramVersion::Sha512,
+    };
+    // 0: never there; 1: there for the init only
+    let present_for = pick(&[1u32, 1, 0]);
+    let proof_kind = choice(3); // 0 right proof, 1 wrong proof, 2 no proof
+    let (nab, nba, nd) = world::draw_net(false);
+    sim::set_config(format!("variant=vanishing-user listener-mechanism={} user-present-for-lookups={} proof={} {}", mech.name(), present_for, proof_kind, nd));
+    sim::mark_nontrivial();
+    sim::set_panic_is_violation(true);
+    let cred = SingleScramCredential::new(USER, PASS, v).expect("credential");
+    let _ = cred.scram_version();
+    let store = Arc::new(VanishingUser { inner: cred, lookups: std::sync::atomic::AtomicU32::new(0), present_for });
+    let acceptor = ConnectionAcceptor::builder().container_id("sasl-listener").sasl_acceptor(ScramAuthenticator::new(store)).build();
+    let (ps, ls, net) = SimStream::pair("peer", "listener", nab, nba);
+    let _mon = wire::install(&net, ["peer", "listener"], [Models::none(), Models::none()]);
+    let mut peer = Peer::new("peer", ps);
+    let accept = sim::in_group(2, async { acceptor.accept(ls).await.map_err(|e| format!("{:?}", e)) });
+    sim::fault("account-removed-during-the-exchange");
+    let script = async {
+        let mut saw_ok = false;
+        let mut amqp_open = false;
+        let cnonce: String = (0..18).map(|_| (b'a' + choice(26) as u8) as char).collect();
+        let bare = format!("n={},r={}", USER, cnonce);
+        peer.send_header(SASL_HEADER).await;
+        let _ = peer.expect_header().await;
+        let _ = next_sasl(&mut peer, 60_000).await;
+        peer.send_sasl(&sasl_init(mech.name(), Some(format!("n,,{}", bare).into_bytes()))).await;
+        match next_sasl(&mut peer, 60_000).await {
+            Some((SASL_CHALLENGE, ch)) => {
+                let server_first = String::from_utf8_lossy(&bin_of(ch.field(0)).unwrap_or_default()).to_string();
+                let nonce = attr(&server_first, 'r').unwrap_or("").to_string();
+                let salt = attr(&server_first, 's').and_then(unb64).unwrap_or_default();
+                let iters: u32 = attr(&server_first, 'i').and_then(|s| s.parse().ok()).unwrap_or(1);
+                let without_proof = format!("c=biws,r={}", nonce);
+                let auth_message = format!("{},{},{}", bare, server_first, without_proof);
+                let final_msg = match proof_kind {
+                    0 => format!("{},p={}", without_proof, b64(&scram_proofs(mech, PASS, &salt, iters.min(100_000), &auth_message).client_proof)),
+                    1 => format!("{},p={}", without_proof, b64(&[7u8; 20])),
+                    _ => without_proof.clone(),
+                };
+                peer.send_sasl(&sasl_response(final_msg.into_bytes())).await;
+                if let Some((SASL_OUTCOME, o)) = next_sasl(&mut peer, 60_000).await {
+                    saw_ok = o.field(0).as_u32() == Some(0);
+                }
+            }
+            Some((SASL_OUTCOME, o)) => saw_ok = o.field(0).as_u32() == Some(0),
+            _ => {}
+        }
+        if saw_ok {
+            peer.send_header(AMQP_HEADER).await;
+            peer.send(0, &peer::open("ghost", None, None, None)).await;
+            for f in peer.drain_for(3000).await {
+                if f.code == wire::OPEN {
+                    amqp_open = true;
+                }
+            }
+        } else {
+            let _ = peer.drain_for(500).await;
+        }
+        peer.shutdown().await;
+        (saw_ok, amqp_open)
+    };
+    let (accepted, (saw_ok, amqp_open)) = match sim::op("exchange with a vanishing account", world::join2(accept, script)).await {
+        Some(x) => x,
+        None => return,
+    };
+    if saw_ok || amqp_open || accepted.is_ok() {
+        sim::violation(
+            "connection-without-valid-credentials",
+            format!(
+                "the account was in the credential store for {} look-up(s) and gone afterwards: outcome ok={} AMQP open from the listener={} accept={:?}",
+                present_for,
+                saw_ok,
+                amqp_open,
+                accepted.as_ref().map(|_| ())
+            ),
+        );
+        return;
+    }
+    sim::probe("vanished-account-refused");
 }
